@@ -380,7 +380,7 @@ func runC03(c *Ctx) {
 	pairMatrix(c, nPair, nil)
 	tPairs := time.Since(t0) - tLocks
 
-	nStress, reps, per := 12000, 3, 50
+	nStress, reps, per := 36000, 3, 60
 	if !quick {
 		nStress, reps, per = 150000, 5, 100
 	}
